@@ -168,14 +168,23 @@ def CASES(tier, seed):
     ns = [1, 2, 3] if tier == 'quick' else [1, 2, 3, 4]
     for n in ns:
         chis = [None] + list(range(1, n + 1))
-        for chi_max, chi_min in itertools.product(chis, chis):
+        pairs = list(itertools.product(chis, chis))
+        if tier == 'quick' and n == 3:
+            pairs = [(a, b) for a in (None, 2) for b in (None, 2, 3)]
+        if n == 4:
+            pairs = [(a, b) for a in (None, 2, 3) for b in (None, 2, 4)]
+        for chi_max, chi_min in pairs:
             for use in itertools.product([False, True], repeat=3):
-                if n >= 3 and tier == 'quick' and sum(use) == 3 and chi_min is not None and chi_min > 1:
-                    continue  # largest option sets of n=3 only in the thorough tier
+                if tier == 'quick' and n == 3 and sum(use) == 3 and (chi_max, chi_min) != (2, None):
+                    continue  # the full option set for n=3 takes minutes per case: thorough tier
+                if n == 4 and sum(use) == 3 and (chi_max, chi_min) != (2, 2):
+                    continue
                 p = dict(n=n, chi_max=chi_max, chi_min=chi_min, use_svd_min=use[0], use_trunc_cut=use[1], use_deg=use[2])
                 cases.append(
                     dict(name=f"truncate[n={n},chi_max={chi_max},chi_min={chi_min},svd_min={use[0]},trunc_cut={use[1]},deg={use[2]}]",
-                         fn='truncate_case', params=p, opts=dict(max_paths=60000, max_wall_s=500, validate_paths=2)))
+                         fn='truncate_case', params=p,
+                         opts=dict(max_paths=200000, max_wall_s=3000 if tier == 'thorough' else 500, validate_paths=2,
+                                   hard_timeout_s=3400 if tier == 'thorough' else 700)))
     if tier == 'thorough':
         for use in itertools.product([False, True], repeat=3):
             p = dict(n=5, chi_max=3, chi_min=2, use_svd_min=use[0], use_trunc_cut=use[1], use_deg=use[2])
